@@ -546,6 +546,10 @@ func (u *Unit) newObjModel(st *State, recv IfaceV, m *types.Func) (Val, bool) {
 	}
 	u.Assumed["A-CRYPTO: key."+m.Name()+"() returns a non-nil object exactly when it returns no error"]++
 	okb := u.newBool("newok")
+	if recv.Dyn != nil && recv.Dyn.String() == "github.com/go-i2p/crypto/ed25519.Ed25519PublicKey" && m.Name() == "NewVerifier" {
+		// A-DEP-ED25519 (read from the pinned dependency): never fails
+		okb = TTrue
+	}
 	obj := IfaceV{Nil: Not(okb), Opq: u.newInt("obj")}
 	er := IfaceV{Nil: okb, Opq: u.newInt("objerr")}
 	u.ifBound[obj.Opq.S] = Add(st.wm, IntLit(int64(st.nalloc)))
